@@ -19,49 +19,89 @@ fn main() {
     util::quiet_panics();
     match cmd {
         "gen" => match prop {
+            #[cfg(feature = "c01")]
             "C01" => props::c01::gen(&tier, seed, &out),
+            #[cfg(feature = "c02")]
             "C02" => props::c02::gen(&tier, seed, &out),
+            #[cfg(feature = "c03")]
             "C03" => props::c03::gen(&tier, seed, &out),
+            #[cfg(feature = "c04")]
             "C04" => props::c04::gen(&tier, seed, &out),
+            #[cfg(feature = "c05")]
             "C05" => props::c05::gen(&tier, seed, &out),
+            #[cfg(feature = "c06")]
             "C06" => props::c06::gen(&tier, seed, &out),
+            #[cfg(feature = "c07")]
             "C07" => props::c07::gen(&tier, seed, &out),
+            #[cfg(feature = "c08")]
             "C08" => props::c08::gen(&tier, seed, &out),
+            #[cfg(feature = "c09")]
             "C09" => props::c09::gen(&tier, seed, &out),
+            #[cfg(feature = "c10")]
             "C10" => props::c10::gen(&tier, seed, &out),
+            #[cfg(feature = "c11")]
             "C11" => props::c11::gen(&tier, seed, &out),
+            #[cfg(feature = "c12")]
             "C12" => props::c12::gen(&tier, seed, &out),
+            #[cfg(feature = "c13")]
             "C13" => props::c13::gen(&tier, seed, &out),
+            #[cfg(feature = "c14")]
             "C14" => props::c14::gen(&tier, seed, &out),
+            #[cfg(feature = "c15")]
             "C15" => props::c15::gen(&tier, seed, &out),
+            #[cfg(feature = "c16")]
             "C16" => props::c16::gen(&tier, seed, &out),
+            #[cfg(feature = "c17")]
             "C17" => props::c17::gen(&tier, seed, &out),
+            #[cfg(feature = "c18")]
             "C18" => props::c18::gen(&tier, seed, &out),
+            #[cfg(feature = "c19")]
             "C19" => props::c19::gen(&tier, seed, &out),
+            #[cfg(feature = "c20")]
             "C20" => props::c20::gen(&tier, seed, &out),
             _ => { eprintln!("unknown property {}", prop); std::process::exit(2); }
         },
         "oracle" => {
             let (tried, fs) = match prop {
+                #[cfg(feature = "c01")]
                 "C01" => props::c01::oracle(&tier, seed),
+                #[cfg(feature = "c02")]
                 "C02" => props::c02::oracle(&tier, seed),
+                #[cfg(feature = "c03")]
                 "C03" => props::c03::oracle(&tier, seed),
+                #[cfg(feature = "c04")]
                 "C04" => props::c04::oracle(&tier, seed),
+                #[cfg(feature = "c05")]
                 "C05" => props::c05::oracle(&tier, seed),
+                #[cfg(feature = "c06")]
                 "C06" => props::c06::oracle(&tier, seed),
+                #[cfg(feature = "c07")]
                 "C07" => props::c07::oracle(&tier, seed),
+                #[cfg(feature = "c08")]
                 "C08" => props::c08::oracle(&tier, seed),
+                #[cfg(feature = "c09")]
                 "C09" => props::c09::oracle(&tier, seed),
+                #[cfg(feature = "c10")]
                 "C10" => props::c10::oracle(&tier, seed),
+                #[cfg(feature = "c11")]
                 "C11" => props::c11::oracle(&tier, seed),
+                #[cfg(feature = "c12")]
                 "C12" => props::c12::oracle(&tier, seed),
+                #[cfg(feature = "c13")]
                 "C13" => props::c13::oracle(&tier, seed),
+                #[cfg(feature = "c14")]
                 "C14" => props::c14::oracle(&tier, seed),
+                #[cfg(feature = "c15")]
                 "C15" => props::c15::oracle(&tier, seed),
+                #[cfg(feature = "c16")]
                 "C16" => props::c16::oracle(&tier, seed),
+                #[cfg(feature = "c17")]
                 "C17" => props::c17::oracle(&tier, seed),
+                #[cfg(feature = "c18")]
                 "C18" => props::c18::oracle(&tier, seed),
+                #[cfg(feature = "c19")]
                 "C19" => props::c19::oracle(&tier, seed),
+                #[cfg(feature = "c20")]
                 "C20" => props::c20::oracle(&tier, seed),
                 _ => { eprintln!("unknown property {}", prop); std::process::exit(2); }
             };
